@@ -384,6 +384,57 @@ def _text_class(text: str) -> str:
     return ",".join(ops[:3]) + (":" + "+".join(tags) if tags else "")
 
 
+# --------------------------------------------------------------------------- `===` leaves (C04, last sentence)
+def _arbitrary_chunk(seeds):
+    """Expressions with one `===V` leaf: the result either satisfies the Boolean equation over
+    packaging's leaf verdicts or the operation raises ValueError - never a wrong set."""
+    from packaging.specifiers import SpecifierSet
+    from dep_logic.specifiers import parse_version_specifier
+    fails, n, raised = [], 0, 0
+    targets = ["1.0", "1.0.0", "2", "1.5", "3.0"]
+    leaves = [">=1.0", "<2", "==1.0", "!=1.0", "~=1.0", "==1.*", "!=1.*", ">=1.0,<3", ">1.5", "<=1.0", "", "<empty>", ">=0"]
+    cands = ["0.5", "1", "1.0", "1.0.0", "1.5", "2", "2.0", "3.0", "3.0.0", "4"]
+    for seed in seeds:
+        rng = random.Random(seed)
+        t = rng.choice(targets)
+        arb_text = f"==={t}"
+        others = [rng.choice(leaves) for _ in range(rng.choice([1, 2]))]
+        ops = [rng.choice(["and", "or"]) for _ in others]
+        arb_first = rng.random() < 0.5
+
+        def ref(text, c):
+            if text == "<empty>":
+                return False
+            return SpecifierSet(text).contains(c, prereleases=True)
+        n += 1
+        expr = arb_text
+        try:
+            acc = parse_version_specifier(arb_text)
+            want = [ref(arb_text, c) for c in cands]
+            for o, op in zip(others, ops):
+                rhs = parse_version_specifier(o)
+                w2 = [ref(o, c) for c in cands]
+                if arb_first:
+                    acc = (acc & rhs) if op == "and" else (acc | rhs)
+                    expr = f"({expr} {op} {o!r})"
+                else:
+                    acc = (rhs & acc) if op == "and" else (rhs | acc)
+                    expr = f"({o!r} {op} {expr})"
+                want = [(a and b) if op == "and" else (a or b) for a, b in zip(want, w2)]
+            got = [bool(c in acc) for c in cands]
+        except ValueError:
+            raised += 1
+            continue
+        except Exception as e:  # noqa: BLE001
+            fails.append((f"C04:arbitrary:raises-{type(e).__name__}", f"{expr}: {e!r}", {"kind": "arbitrary", "seed": seed, "expr": expr}))
+            continue
+        if got != want:
+            bad = [c for c, g, w in zip(cands, got, want) if g != w]
+            fails.append((f"C04:arbitrary({'+'.join(ops)}):wrong-set", f"{expr} -> {check_interval._s(acc)}: membership differs on {bad}",
+                          {"kind": "arbitrary", "seed": seed, "expr": expr, "wrong_on": bad}))
+    return n, fails, raised
+
+
 # --------------------------------------------------------------------------- entry
 def run(pid: str, tier: str, replay: str | None = None) -> int:
     thorough = tier == "thorough"
@@ -451,6 +502,15 @@ def run(pid: str, tier: str, replay: str | None = None) -> int:
         rep.count("algorithm_drift", drift)
         rep.sample({"vector": {k: vecs[len(vecs) // 3][k] for k in ("lo", "hi", "fl", "phase", "obs")}})
     if pid == "C04":
+        seeds = [rep.seed * 7907 + i for i in range(20000 if thorough else 3000)]
+        nr = 0
+        for n, fails, raised in _pmap(_arbitrary_chunk, _split(seeds, 16)):
+            total += n
+            nr += raised
+            for f in fails:
+                rep.violation(*f)
+        rep.count("arbitrary_equality_expressions", len(seeds))
+        rep.count("arbitrary_equality_raised_ValueError", nr)
         check_interval.pairs_membership(rep, 4 if thorough else 3)
         check_interval.b2_behaviours(rep, 3, num=(6000 if thorough else 800), depth=(16 if thorough else 12))
     if pid in ("C04", "C06"):
